@@ -35,6 +35,10 @@ func init() {
 // evalText evaluates a rendered expression on the real code and emits the model request.
 func evalText(o *Out, opts []OptSpec, text string, datum interface{}) string {
 	req, ans := evalCase(opts, text, datum)
+	for _, m := range mutations {
+		o.finding(m)
+	}
+	mutations = nil
 	o.emit(req, ans)
 	o.count("outcome:" + ans)
 	return ans
